@@ -161,21 +161,27 @@ def run(tier):
     # written relative to the importing module; beside the main module sit decoys under the names of the moved modules,
     # which no module imports)
     passes = []
-    for layout in (None, {"g": "lib/g", "h": "lib/h"}):
+    LIB = {"g": "lib/g", "h": "lib/h"}
+    for layout, loaded in ((None, False), (LIB, False), (LIB, True)):
         rendered = []
         cases = []
         for i, g in enumerate(progs):
             rp_ = render.render_program(g["prog"], style=(i + common.seed()) % 4, layout=layout)
             if layout:
-                for m in layout:
+                for k_, m in enumerate(sorted(layout)):
                     if m in g["prog"]["mods"]:
                         rp_["files"][BASE + m + ".oal"] = "let n = { 'z num };\nlet u = { 'z num };\nlet f x = { 'z x };\n"
+                        if loaded:
+                            # the decoy is a module of the program (imported by the main module under a qualifier nobody
+                            # uses, after everything else so that no statement moves): still not what lib/g's import names
+                            rp_["files"][rp_["main"]] += 'use "%s.oal" as zz%d;\n' % (m, k_)
             rendered.append(rp_)
             cases.append({"main": rp_["main"], "files": rp_["files"], "resolve_only": True, "want": {"bindings": True, "decls": True}})
         obs = run_oalv_parallel("compile", cases, jobs=8)
         full = run_oalv_parallel("compile", [{"main": c["main"], "files": c["files"], "want": {"doc": True}} for c in cases], jobs=8)
         passes.append((layout, rendered, obs, full))
-    chk.notes["layouts"] = ["all modules in one directory", "imported modules in lib/ with decoys of the same names beside the main module"]
+    chk.notes["layouts"] = ["all modules in one directory", "imported modules in lib/ with decoys of the same names beside the main module",
+                            "the same with the decoys imported by the main module under unused qualifiers"]
     for g, rp_, o, f, layout in [(g, rp_, o, f, layout) for layout, rendered_, obs_, full_ in passes for g, rp_, o, f in zip(progs, rendered_, obs_, full_)]:
         prog = g["prog"]
         text = rp_["files"][BASE + "m1.oal"]
@@ -351,7 +357,7 @@ def run(tier):
     if len(members) < 30 or (dsame == 0 and not chk.violations):
         raise common.ToolError("DynScope family: %d members defined, %d compared - the evaluation part would be vacuous" % (len(members), dsame))
     chk.notes["dynscope_members_equal_to_denotation"] = "%d/%d" % (dsame, len(members))
-    chk.cov["evaluations"] = 2 * len(progs) + len(members)
+    chk.cov["evaluations"] = 3 * len(progs) + len(members)
     chk.cov["distinct_nontrivial"] = nontrivial + len(members)
     chk.notes["dynamic_agreement_checked"] = dyn
     chk.cov["exhaustive"] = True
